@@ -80,7 +80,12 @@ fn build(dg: &[usize], pool: &[&str]) -> (Probe, bool) {
         }
     };
     let name_attr = match nf {
-        NameForm::Quoted(i) => Some(format!("name=\"{}\"", pool[i])),
+        // spellings of the same attribute: double quotes, single quotes, blanks around '='
+        NameForm::Quoted(i) => Some(match dg.get(6).copied().unwrap_or(0) {
+            0 => format!("name=\"{}\"", pool[i]),
+            1 => format!("name='{}'", pool[i]),
+            _ => format!("name = \"{}\"", pool[i]),
+        }),
         NameForm::Missing => None,
         NameForm::Valueless => Some("name".to_string()),
         NameForm::Unquoted => Some("name=a".to_string()),
@@ -219,6 +224,7 @@ pub fn run(r: &Report) {
         2,
         TAGNAME_CFGS.len(),
         4,
+        3,
     ];
     let expected: u64 = radices.iter().map(|&x| x as u64).product();
     let counted = explore_product(
